@@ -8,5 +8,5 @@ Extraction "names_model.ml"
   name_to_str comp_to_str comp_to_canon name_from_str_f comp_from_str name_hash_input comp_hash_input comp_hash_header
   comp_pattern_from_str_f name_pattern_from_str_f npat_to_str cpat_to_str npat_cmp cpat_cmp to_full_name
   uri_wfb comp_uri_wfb comp_canon_wfb conventions
-  triple_ok pair_ok comp_ok brt_ok rt_ok crt_ok no_panic bytes_eqb
+  triple_ok pair_ok comp_ok layout_pair_ok is_prefixb brt_ok rt_ok crt_ok no_panic bytes_eqb
   N.add N.mul N.of_nat N.to_nat N.eqb N.ltb N.div N.modulo.
